@@ -472,13 +472,13 @@ def corpus_calls(tier, seed, rnd, n=None, repeat=False):
     specs = []
     n = n or (60 if tier == "quick" else 1500)
     for i in range(n):
-        smp = rnd.choice(["importance", "minipcn", "emcee"])
+        smp = rnd.choice(["importance", "minipcn", "emcee", "convert"])
         ns = rnd.choice(["numpy"] * 4 + ["torch", "jax"])
-        if smp != "importance":
+        if smp not in ("importance", "convert"):
             ns = rnd.choice(["numpy"] * 5 + ["torch"]) if smp == "minipcn" else "numpy"
         c = dict(sampler=smp, ns=ns, N=rnd.choice([4, 8, 16]), dims=rnd.choice([1, 2, 3]),
                  width=rnd.choice([0.2, 0.5, 1.0]), seed=seed * 313 + i,
-                 precond=rnd.choice(["none", "default", "affine", "logit", "full"]) if smp != "importance" else "none",
+                 precond=rnd.choice(["none", "default", "affine", "logit", "full"]) if smp not in ("importance", "convert") else "none",
                  recipe=rnd.choice([False, True]), bad_frac=rnd.choice([0.0, 0.3, 0.9]),
                  dtype=rnd.choice([None, "float64", "float32"]), split=rnd.choice([1, 2]))
         if ns == "torch" and c["dtype"] is None:
